@@ -239,9 +239,32 @@ func c13Spec(sb int, maxCost int64, keys []int, depth int, clear bool) *SeqSpec 
 	}
 }
 
+// c13EvictSpec: unequal costs and real Gets (BufferItems 1, policy-goroutine steps) so that one
+// admission needs several evictions and can still end in a rejection after some victims were
+// already taken out of the accounting.
+func c13EvictSpec(depth int) *SeqSpec {
+	alpha := []Op{{K: "set", Key: 1, Cost: 1}, {K: "set", Key: 257, Cost: 1}, {K: "set", Key: 2, Cost: 2}, {K: "get", Key: 257}, {K: "drain"}, {K: "del", Key: 1}, {K: "get", Key: 2}}
+	return &SeqSpec{
+		Cfg:      Cfg{NumCounters: 16, MaxCost: 2, BufferItems: 1, SetBuf: 3, MapOrder: "rot"},
+		MaxDepth: depth,
+		Alphabet: func(r *SeqRun) []Op { return alpha },
+		Oracle:   c13Oracle,
+		Probe: func(c seqCache, r *SeqRun) {
+			if allIdle(r.Post.ClientState) && len(r.Post.SetBufItems) == 0 {
+				iterProbe(c, r)
+			}
+		},
+	}
+}
+
 func c13Seq(tier string) []SeqJob {
 	var out []SeqJob
 	add := func(name string, s *SeqSpec, secs float64) { out = append(out, SeqJob{Name: name, Spec: s, Seconds: secs}) }
+	if tier == "quick" {
+		add("seq/unequal-costs+gets/max2/depth7", c13EvictSpec(7), 40)
+	} else {
+		add("seq/unequal-costs+gets/max2/depth10", c13EvictSpec(10), 560)
+	}
 	if tier == "quick" {
 		add("seq/setbuf1/max2/2keys/depth6", c13Spec(1, 2, []int{1, 257}, 6, true), 40)
 		add("seq/setbuf2/max2/3keys/depth5", c13Spec(2, 2, []int{1, 257, 2}, 5, true), 40)
